@@ -24,7 +24,7 @@ Step ==
     \/ a.n = "Rotate" /\ Rotate(a.ok)
     \/ a.n = "Merge" /\ Merge(a.c, a.t)
     \/ a.n = "Split" /\ Split({a.k[i] : i \in 1..Len(a.k)})
-    \/ a.n = "Close" /\ Close(a.ok)
+    \/ a.n = "Close" /\ Close(a.ok, a.via)
 Got == [post |-> Ev.post, err |-> Ev.err, res |-> Ev.res]
 \* fields the driver logged that the specification does not know (an escaped exception) can never match
 Want == [post |-> [k \in (DOMAIN Ev.post) \cap (DOMAIN Obs') |-> Obs'[k]], err |-> err', res |-> ResView']
